@@ -15,7 +15,7 @@ CONFIG = {
     "level_note": ("Effects outside the world base directory are invisible to the snapshot (the audit hook would still see "
                    "Python-level calls); C extensions writing behind Python's back are seen by the snapshot only."),
     "technique": "deterministic simulation: seeded command/option/failure swarm with effect-log + audit-hook + snapshot-diff monitor",
-    "quick": {"runs": 1200, "budget_s": 90},
+    "quick": {"runs": 1600, "budget_s": 120},
     "thorough": {"runs": 8000, "budget_s": 540},
     "rule": ("one run = random world + 3..12 operations incl. read-only commands, flatten and manifest tampering; one "
              "evaluation = one executed command. Distinct = (command, option set, exit class, #effects); non-trivial = "
